@@ -358,6 +358,9 @@ def erf(x, out=None, n=0):
     a = 2 * np_recip_sqrt_pi * np.exp(-np.square(x))
     b = np.zeros_like(x)
     for k in range(n):
+        if 2*k + 1 - n < 0:
+            # the Pochhammer factor of this term is zero; x**(negative) would make it nan at x = 0
+            continue
         sa = pow(-1, k) * np.exp2(2*k + 1 - n) * pow(x, 2*k + 1 - n)
         sb = scipy.special.poch(2*k + 2 - n, 2*(n - 1 - k))
         sc = math.factorial(n - 1 - k)
@@ -369,6 +372,9 @@ def erfi(x, out=None, n=0):
     a = 2 * np_recip_sqrt_pi * np.exp(np.square(x))
     b = np.zeros_like(x)
     for k in range(n):
+        if 2*k + 1 - n < 0:
+            # the Pochhammer factor of this term is zero; x**(negative) would make it nan at x = 0
+            continue
         sa = np.exp2(2*k + 1 - n) * pow(x, 2*k + 1 - n)
         sb = scipy.special.poch(2*k + 2 - n, 2*(n - 1 - k))
         sc = math.factorial(n - 1 - k)
